@@ -130,6 +130,9 @@ def bounded(seed: int = 0, **_: Any) -> Dict[str, Any]:
                 "empty string": shelf(T.Ball(name="", radius=1)),
                 "code at the bounds": shelf(box(code="Ab"), box(code="Abcde")),
                 "code out of the bounds": shelf(box(code="A"), box(code="Abcdef")),
+                "abbreviations in names": shelf(T.URLThing(name="Link", target_url="https://x"),
+                                                T.SignedURLThing(name="Signed", target_url="https://y", signature="s"),
+                                                box()),
                 "tiny texts": shelf(T.Ball(name="Round", radius=1, tiny="abc"), T.Ball(name="Round", radius=1, tiny=""),
                                     T.Ball(name="Round", radius=1, tiny="abcdefghijkl")),
             }
@@ -153,6 +156,26 @@ def bounded(seed: int = 0, **_: Any) -> Dict[str, Any]:
                         failures.append({"property": "C08", "case": label,
                                          "observed": f"no error for {cause!r} carries a path through {where!r}: "
                                                      f"{[p for c, p in got if c == cause]}"})
+            # ---------------------------------------------------------------- C08: formulas on a grid of values
+            lambdas = [eval("lambda self: " + e) for e in c11.FORMULAS]  # noqa: S307
+            import itertools
+            for a, b, c, pp, qq in itertools.product((-3, 0, 1, 2), (-3, 0, 2), (-1, 0, 2), (True, False), (True, False)):
+                cases += 1
+                inst = T.Formula(a=a, b=b, c=c, p=pp, q=qq)
+                want = sorted(f"Formula {k}" for k, f in enumerate(lambdas) if not f(inst))
+                try:
+                    got = sorted(str(e.cause) for e in V.verify(inst))
+                except BaseException as e:  # noqa
+                    failures.append({"property": "C08", "case": f"Formula({a}, {b}, {c}, {pp}, {qq})",
+                                     "observed": f"verify raised {type(e).__name__}: {e}"})
+                    break
+                if got != want:
+                    k = next(iter(sorted(set(got) ^ set(want))))
+                    failures.append({"property": "C08", "case": f"Formula({a}, {b}, {c}, {pp}, {qq})",
+                                     "observed": f"verification and Python disagree on {k!r} "
+                                                 f"({c11.FORMULAS[int(k.split()[1])]}): reported {k in got}, "
+                                                 f"false in Python {k in want}"})
+                    break
             # ---------------------------------------------------------------- C10: round trips
             for label, inst in instances.items():
                 cases += 1
